@@ -1,6 +1,7 @@
 package harness
 
 import (
+	"sync/atomic"
 	"context"
 	"time"
 	"bytes"
@@ -304,6 +305,51 @@ func (a *RecAppender) Write(b []byte) {
 
 func init() {
 	log.RegisterPlugin[RecAppender]("Rec", log.PluginTypeAppender)
+	log.RegisterPlugin[RecLogger]("RecLogger", log.PluginTypeLogger)
+}
+
+// RecLogger is an application-defined logger plugin: it owns its target (a recorder), does not
+// embed LoggerBase, has no "name" attribute (GetName answers with its kind, the same for every
+// instance) and its level can be changed while it is live.
+type RecLogger struct {
+	Tags    string         `PluginAttribute:"tags,default="`
+	Level   log.LevelRange `PluginAttribute:"level,default="`
+	RecName string         `PluginAttribute:"recName"`
+	dyn     atomic.Pointer[log.LevelRange]
+}
+
+var (
+	dynMu      sync.Mutex
+	dynLoggers = map[string]*RecLogger{}
+)
+
+func (l *RecLogger) GetName() string { return "reclogger" }
+func (l *RecLogger) GetTags() string { return l.Tags }
+func (l *RecLogger) GetLevel() log.LevelRange {
+	if d := l.dyn.Load(); d != nil {
+		return *d
+	}
+	return l.Level
+}
+
+// SetLevel changes the level of the live logger.
+func (l *RecLogger) SetLevel(r log.LevelRange) { l.dyn.Store(&r) }
+
+func (l *RecLogger) Start() error {
+	dynMu.Lock()
+	dynLoggers[l.RecName] = l
+	dynMu.Unlock()
+	return nil
+}
+func (l *RecLogger) Stop() {}
+func (l *RecLogger) Append(e *log.Event) {
+	if l.GetLevel().Enable(e.Level) {
+		(&RecAppender{AppenderBase: log.AppenderBase{Name: l.RecName}}).Append(e)
+	}
+	log.PutEvent(e)
+}
+func (l *RecLogger) Write(b []byte) {
+	(&RecAppender{AppenderBase: log.AppenderBase{Name: l.RecName}}).Write(b)
 }
 
 func (it Item) String() string {
